@@ -954,6 +954,9 @@ def one_rx(chk, program, rule='ONE-RX'):
         for node in ast.walk(m.tree):
             if isinstance(node, ast.Call) and isinstance(node.func, ast.Attribute) and node.func.attr == '_receive_loop':
                 sites.append((mname, _enclosing(node), node))
+    if not sites:
+        chk.unknown(rule, 'package::one-start-site', 'no call of _receive_loop() anywhere in the package: the receive loop is started some other way (renamed, handed over as a value)', IO, 0)
+        return
     chk.check(len(sites) == 1, rule, 'package::one-start-site', file=IO, line=sites[0][2].lineno if sites else 0, expected='self._receive_loop() started at exactly one site',
               found=[f"{a}.{b}" for a, b, _ in sites])
     for mname, q, node in sites:
@@ -1079,6 +1082,10 @@ def yield_rule(chk, program, rule='YIELD'):
             ok_impl, qa2 = always_suspends(iq)
             good = set(calls) if ok_impl else set()
             spin = body and (w.id in g.reach(body[0], avoid=good, include_src=True)) and body[0] not in good
+            if spin and not reader_reads(cfg_of(program, iq)):
+                # the implementation does not read from self.reader itself: the read (and its end-of-stream discipline) lives in a helper that was not followed
+                chk.unknown(rule, f"{q}::loop::{iq}", f"{iq} reads through a helper, not from self.reader directly: whether every iteration suspends was not followed", IO, w.line)
+                continue
             chk.check(not spin, rule, f"{q}::loop::{iq}", file=IO, line=w.line, func=q,
                       expected='every iteration passes a reader operation under EOF discipline / queue.get / sleep(>0)',
                       found=('ok' if not spin else f"{iq} can return without suspending (a read that returns b'' at EOF is not followed by a raise): the loop spins and starves the event loop"),
@@ -1434,6 +1441,19 @@ def _const_int(e, consts=None):
     if isinstance(e, ast.Name) and consts and e.id in consts:
         return consts[e.id]
     return None
+
+def const_int_in(program, module, e):
+    """an integer expression of a hand-written module as a number: a literal, or what the module environment makes of it (a module constant, a
+    class attribute, also of a sibling module, small arithmetic).  None when it is not a constant"""
+    v = _const_int(e)
+    if v is not None:
+        return v
+    from . import absint as _A
+    try:
+        r = _A.Interp(module=_A.ModuleEnv(program.mod(module).tree)).expr(e, {})
+    except (_A.Unknown, _A.RaiseSignal, Exception):
+        return None
+    return r.v if isinstance(r, _A.AInt) and r.v is not None else None
 
 def _upper_const(e, env):
     """upper bound of a small int expression: constants, names bound to (1 if c else 0), len(bytes literal)"""
@@ -1834,6 +1854,13 @@ def rx_rules(chk, program):
                     st = g.nodes[x].ast
                     if isinstance(st, ast.Assign) and any(isinstance(t, ast.Name) and t.id == arg.id for t in st.targets):
                         okarg = True
+            if not okarg:
+                # a witness: what is put is the bytes read (or a constant), not a decoded message.  Any other origin of the value is not followed here.
+                read_names = {t.id for x_, c_, m_ in reader_reads(g) for t in (g.nodes[x_].ast.targets if isinstance(g.nodes[x_].ast, ast.Assign) else []) if isinstance(t, ast.Name)}
+                raw_put = isinstance(arg, ast.Constant) or (isinstance(arg, ast.Name) and arg.id in read_names)
+                if not raw_put:
+                    chk.unknown('RX-ONCE', f"{q}::put-argument", f"what is queued ({ast.unparse(arg)[:40] if arg is not None else None}) does not come from a call of self.decoder.decode_* this reading recognises", IO, pc.lineno)
+                    continue
             chk.check(okarg, 'RX-ONCE', f"{q}::put-argument", file=IO, line=pc.lineno, func=q, expected='the value returned by the decode call', found=ast.unparse(arg) if arg is not None else None)
     # puts nowhere else
     for mname, m in program.modules.items():
@@ -1841,6 +1868,10 @@ def rx_rules(chk, program):
             if isinstance(node, ast.Call) and isinstance(node.func, ast.Attribute) and node.func.attr in ('put', 'put_nowait') and isinstance(node.func.value, ast.Attribute) and node.func.value.attr == 'queue':
                 qn = _enclosing(node)
                 if not (mname == 'ioclient' and qn.endswith('._receive_impl')):
+                    if nput == 0:
+                        # no _receive_impl queues anything itself: the put has moved into this helper, it is not a second producer
+                        chk.unknown('RX-ONCE', f"{mname}.{qn}::extra-put", f"the queue is written in {qn} and in no _receive_impl: the producer path goes through a helper that was not followed", m.rel(), node.lineno)
+                        continue
                     chk.violation('RX-ONCE', f"{mname}.{qn}::extra-put", file=m.rel(), line=node.lineno, expected='queue written only by _receive_impl', found=qn)
     chk.floor('queue_put_sites', nput, 3)
 
@@ -1872,7 +1903,11 @@ def q_fifo(chk, program):
         for node in ast.walk(mm.tree):
             if isinstance(node, ast.Call) and isinstance(node.func, ast.Attribute) and node.func.attr in ('get', 'get_nowait') and isinstance(node.func.value, ast.Attribute) and node.func.value.attr == 'queue':
                 gets.append((mname, _enclosing(node), node.lineno))
-    chk.check(len(gets) == 1 and gets[0][1] == f"{BASE}._process_queue", 'Q-FIFO', 'package::one-reader', file=IO, line=gets[0][2] if gets else 0,
+    if gets and not any(b == f"{BASE}._process_queue" for a, b, _ in gets):
+        # _process_queue does not take from the queue itself: the consumer reads through a helper (one reader still, if the helper is only used there)
+        chk.unknown('Q-FIFO', 'package::one-reader', f"queue.get is not in _process_queue but in {[f'{a}.{b}' for a, b, _ in gets]}: who consumes through it was not followed", IO, gets[0][2])
+    else:
+      chk.check(len(gets) == 1 and gets[0][1] == f"{BASE}._process_queue", 'Q-FIFO', 'package::one-reader', file=IO, line=gets[0][2] if gets else 0,
               expected='queue.get only in _process_queue', found=[f"{a}.{b}" for a, b, _ in gets])
     q = f"{BASE}._process_queue"
     g = cfg_of(program, q)
@@ -1900,6 +1935,9 @@ def q_fifo(chk, program):
                 stx = g.nodes[x].ast
                 if isinstance(stx, ast.Assign) and any(isinstance(t, ast.Name) and t.id == c.args[0].id for t in stx.targets):
                     arg_ok = True
+        if not arg_ok and not getn:
+            chk.unknown('Q-FIFO', f"{q}::callback-argument", 'no queue.get in _process_queue: where the value handed to the callback comes from was not followed', IO, c.lineno)
+            continue
         chk.check(arg_ok, 'Q-FIFO', f"{q}::callback-argument", file=IO, line=c.lineno, func=q, expected='the message taken from the queue', found=ast.unparse(c.args[0]) if c.args else None)
         tr = _enclosing_try(c, g.fn)
         names = [handler_names(h) for h in tr.handlers] if tr is not None else []
@@ -1909,6 +1947,16 @@ def q_fifo(chk, program):
             for h in tr.handlers:
                 if any(isinstance(x, ast.Raise) for x in walk_no_nested(ast.Module(body=h.body, type_ignores=[]))):
                     okt = False
+        if tr is None:
+            # no try around the callback: inside a `with` over something other than a lock the context manager may take the exception
+            t_ = c; cm = None
+            while hasattr(t_, '_parent') and t_ is not g.fn:
+                t_ = t_._parent
+                if isinstance(t_, (ast.With, ast.AsyncWith)) and not all(is_self_attr(i.context_expr, ('lock', '_send_lock')) for i in t_.items):
+                    cm = t_
+            if cm is not None:
+                chk.unknown('Q-FIFO', f"{q}::callback-shielded", f"the callback runs inside `with {ast.unparse(cm.items[0].context_expr)[:50]}`: whether that context manager contains a failing callback was not followed", IO, c.lineno)
+                continue
         chk.check(okt, 'Q-FIFO', f"{q}::callback-shielded", file=IO, line=c.lineno, func=q,
                   expected='try/except Exception (not BaseException/CancelledError), no re-raise: a failing callback never stops delivery, cancellation still works', found=names)
         # task_done on every path from get back to the loop head
@@ -1927,7 +1975,10 @@ def rx_frame(chk, program):
         reads = reader_reads(g)
         kinds = sorted({meth for _, _, meth in reads})
         if 'decode_tcp' in fronts:
-            ok = len(reads) == 1 and reads[0][2] == 'readexactly' and _const_int(reads[0][1].args[0]) == 13
+            ok = len(reads) == 1 and reads[0][2] == 'readexactly' and const_int_in(program, 'ioclient', reads[0][1].args[0]) == 13
+            if not ok and len(reads) == 1 and reads[0][2] == 'readexactly' and const_int_in(program, 'ioclient', reads[0][1].args[0]) is None:
+                chk.unknown('RX-FRAME', f"{q}::fixed-13-byte-framing", f"readexactly({ast.unparse(reads[0][1].args[0])[:40]}): the size is not a constant this analysis can follow", IO, reads[0][1].lineno)
+                continue
             chk.check(ok, 'RX-FRAME', f"{q}::fixed-13-byte-framing", file=IO, line=reads[0][1].lineno if reads else g.fn.lineno, func=q,
                       expected='one `await self.reader.readexactly(13)` per packet: 1 type byte + 4 identifier bytes + 8 data bytes (C06 WF-LEN13)',
                       found=[f"{m}({ast.unparse(c.args[0]) if c.args else ''})" for _, c, m in reads],
@@ -2064,6 +2115,10 @@ def rx_raise(chk, program, rule='RX-RAISE'):
                 # leaves the function?  (a raise inside the decode try that is caught locally does not)
                 if g.raise_exit.id not in [v for v, l in g.succ[n.id]]:
                     continue
+                if not readvars:
+                    # nothing in this function is the raw result of a read of self.reader: what the tests look at was produced by a helper
+                    chk.unknown(rule, f"{q}::{stmt_key(n.ast)}", 'the function does not bind the result of a read of self.reader: whether the raise depends on content or on end of stream was not followed', IO, n.line)
+                    continue
                 # controlling tests
                 ctl = []
                 seenp = set(); stackp = [n.id]
@@ -2078,8 +2133,9 @@ def rx_raise(chk, program, rule='RX-RAISE'):
                 for p_, l in ctl:
                     t = g.nodes[p_].ast.test
                     e_ok = any(emptiness_edge(t, v) == l for v in readvars)
-                    banner = isinstance(t, ast.Compare) and len(t.ops) == 1 and isinstance(t.ops[0], ast.Eq) and isinstance(t.left, ast.Name) and t.left.id in readvars \
-                        and isinstance(t.comparators[0], ast.Constant) and isinstance(t.comparators[0].value, (bytes, str)) and len(t.comparators[0].value) > 0 and l == 'true'
+                    banner = isinstance(t, ast.Compare) and len(t.ops) == 1 and isinstance(t.ops[0], (ast.Eq, ast.NotEq)) and isinstance(t.left, ast.Name) and t.left.id in readvars \
+                        and isinstance(t.comparators[0], ast.Constant) and isinstance(t.comparators[0].value, (bytes, str)) and len(t.comparators[0].value) > 0 \
+                        and l == ('true' if isinstance(t.ops[0], ast.Eq) else 'false')
                     # a test that reads nothing received (configuration such as the gateway type) says nothing about content
                     tainted = set(readvars)
                     for _ in range(4):
